@@ -1277,3 +1277,37 @@ Proof.
   split; [reflexivity|]. split; [reflexivity|]. unfold set_writer, set_plug. fields.
   rewrite aset_aset_same. destruct s; cbn in *. subst. reflexivity.
 Qed.
+
+(* ---------------- block acquisition has no time bound ---------------- *)
+(* While a registration is inside the exclusive section no block is granted — and that stays so for as long
+   as the registration has neither finished nor failed, whatever else happens and however long it takes. *)
+Lemma step_keeps_exclusive s a s' q : step s a = Some s' -> a <> APFail q -> a <> APRelease q ->
+  in_exclusive s q -> in_exclusive s' q.
+Proof.
+  intros H Hf Hr (pc & Hq & Hh). unfold in_exclusive.
+  destruct a as [p|p|p|p|p|p|p|p|g|g c|g p|g|g|g|g];
+    try (destruct (String.eqb_spec p q) as [->|Hne];
+         [ try (exfalso; apply Hf; reflexivity); try (exfalso; apply Hr; reflexivity);
+           unfold step in H; rewrite Hq in H; destruct pc; try discriminate;
+           repeat match type of H with context [match ?x with _ => _ end] => destruct x; try discriminate end;
+           inversion H; subst; eexists; fields; rewrite ?alookup_aset_same; split; reflexivity
+         | open_step H; fields; exists pc; rewrite ?alookup_aset_other by congruence; auto ]);
+    try (open_step H; fields; exists pc; auto).
+Qed.
+
+Theorem no_block_during_section l : forall s s' q, reachable s -> in_exclusive s q ->
+  steps s l = Some s' -> ~ In (APFail q) l -> ~ In (APRelease q) l ->
+  in_exclusive s' q /\ writer s' = true /\ readers s' = 0 /\ (forall g, step s' (AGAcquire g) = None).
+Proof.
+  induction l as [|a r IH]; cbn [steps]; intros s s' q R Hx H Hf Hr.
+  - inversion H; subst. destruct Hx as (pc & Hq & Hh). pose proof (reachable_inv s' R) as I.
+    destruct (exclusive_free s' q pc I Hq Hh) as (W & G & Hrd & M).
+    split; [exists pc; auto|]. split; [exact W|]. split; [exact Hrd|].
+    intros g. unfold step. rewrite G, W. reflexivity.
+  - destruct (step s a) as [s1|] eqn:E; [|discriminate].
+    apply (IH s1 s' q); try assumption.
+    + eapply reachable_step; eauto.
+    + apply (step_keeps_exclusive s a s1 q E); [intros ->; apply Hf; left; reflexivity|intros ->; apply Hr; left; reflexivity|exact Hx].
+    + intros Hi. apply Hf. right. exact Hi.
+    + intros Hi. apply Hr. right. exact Hi.
+Qed.
